@@ -8,8 +8,15 @@
   Part 2 (`run_append`, `run_prefix`, `prefix_blocks`): extension stability of every decoder
   program, hence on a prefix of an input a reader returns exactly the leading blocks of the
   full input that lie inside the prefix and then fails with end-of-input.
+  Part 3 (`truncated_blocks`, `truncated_output`): the concrete block reader (the schema model of
+  `CdnsReader::read_block`, `Model.File.readBlock`) on a block array cut at ANY byte offset: it
+  returns exactly the blocks wholly inside the cut – for the exporter's own encoding and for every
+  equivalent well-formed re-encoding of the blocks – then `CdnsDecoderEnd`; a cut inside a block never
+  yields a value (`readBlock_cut`).  Parts 1 and 3 compose through `runW_refines` (any window offset).
 -/
 import CdnsVerif.Model.Window
+import CdnsVerif.Model.File
+import CdnsVerif.Proofs.DenoteWrite
 
 namespace CdnsVerif.Props.C05
 open CdnsVerif.Spec.Cbor CdnsVerif.Model CdnsVerif.Model.Window
@@ -404,6 +411,253 @@ theorem prefix_blocks (p : σ → Prog (Option β × σ)) (hT : ∀ st, Tight (p
           have hle : c' ≤ c + n := by omega
           simp [this, hle]
       · rw [hr] at h2; cases h2
+
+/-! ### tightness along the run only -/
+
+/-- pointwise form: a step that is tight AT this input … -/
+theorem tightAt_prefix_end (q : Prog γ) (bs r : Bytes) (x : γ) (n : Nat)
+    (hfull : q.run bs = .ok (x, r)) (ht : q.run (bs.take (bs.length - r.length)) = .ok (x, []))
+    (hend : q.run (bs.take n) = .error .end_) : n < bs.length - r.length := by
+  apply Classical.byContradiction
+  intro hk
+  have hk' : bs.length - r.length ≤ n := by omega
+  have ha := run_append q (bs.take (bs.length - r.length)) ((bs.take n).drop (bs.length - r.length))
+  rw [ht] at ha
+  simp only at ha
+  have e : bs.take (bs.length - r.length) ++ (bs.take n).drop (bs.length - r.length) = bs.take n := by
+    have : bs.take (bs.length - r.length) = (bs.take n).take (bs.length - r.length) := by
+      rw [List.take_take, Nat.min_eq_left hk']
+    rw [this, List.take_append_drop]
+  rw [e, hend] at ha
+  cases ha
+
+/-- The same with tightness required only along the run (at the states of an invariant `R` the run stays in):
+    what the concrete block reader of `Props.C05` file level satisfies. -/
+theorem prefix_blocks_inv (p : σ → Prog (Option β × σ)) (R : σ → Bytes → Prop)
+    (hT : ∀ st bs x r, R st bs → (p st).run bs = .ok (x, r) → (p st).run (bs.take (bs.length - r.length)) = .ok (x, []))
+    (hR : ∀ st bs a st' r, R st bs → (p st).run bs = .ok ((some a, st'), r) → R st' r)
+    (fuel : Nat) (st : σ) (c : Nat)
+    (bs : Bytes) (h0 : R st bs) (n : Nat) (hn : n ≤ bs.length) (blocks : List (β × Nat))
+    (hfull : readAll p fuel st c bs = (blocks, none)) :
+    (readAll p fuel st c (bs.take n)).1 = blocks.filter (fun x => decide (x.2 ≤ c + n)) := by
+  induction fuel generalizing st c bs n blocks with
+  | zero => simp [readAll] at hfull
+  | succ fuel ih =>
+    unfold readAll at hfull ⊢
+    cases hr : (p st).run bs with
+    | error e => rw [hr] at hfull; simp at hfull
+    | ok v =>
+      obtain ⟨⟨o, st'⟩, r⟩ := v
+      rw [hr] at hfull
+      rcases run_prefix (p st) bs n with h | ⟨x, r', h1, h2⟩ | ⟨e, h1, h2⟩
+      · -- prefix ends within this step: every block of the full run ends beyond the prefix
+        rw [h]
+        have hlt := tightAt_prefix_end (p st) bs r _ n hr (hT st bs _ r h0 hr) h
+        cases o with
+        | none => simp at hfull; simp [hfull]
+        | some a =>
+          simp only at hfull ⊢
+          generalize hrec : readAll p fuel st' (c + (bs.length - r.length)) r = full at hfull
+          obtain ⟨as, e⟩ := full
+          simp only [Prod.mk.injEq] at hfull
+          rw [← hfull.1]
+          have hge := readAll_ge p fuel st' (c + (bs.length - r.length)) r
+          rw [hrec] at hge
+          symm
+          rw [List.filter_eq_nil_iff]
+          intro y hy
+          simp only [List.mem_cons] at hy
+          simp only [decide_eq_true_eq, Nat.not_le]
+          rcases hy with rfl | hy
+          · simp; omega
+          · have := hge y hy; omega
+      · rw [h1]
+        rw [hr] at h2
+        simp only [Except.ok.injEq, Prod.mk.injEq] at h2
+        obtain ⟨hx, hrr⟩ := h2
+        subst hx
+        cases o with
+        | none => simp at hfull; simp [hfull]
+        | some a =>
+          simp only at hfull ⊢
+          obtain ⟨pre, hpre⟩ := run_suffix (p st) (bs.take n) r' (some a, st') h1
+          have hlen : (bs.take n).length = pre.length + r'.length := by rw [hpre]; simp
+          have hlen2 : (bs.take n).length = n := by simp [List.length_take]; omega
+          have hrl : r.length = r'.length + (bs.length - n) := by rw [hrr]; simp
+          have hc : (bs.take n).length - r'.length = bs.length - r.length := by omega
+          rw [hc]
+          have hcc : c + (bs.length - r.length) + r'.length = c + n := by omega
+          generalize c + (bs.length - r.length) = c' at *
+          generalize hrec : readAll p fuel st' c' r = full at hfull
+          obtain ⟨as, e⟩ := full
+          simp only [Prod.mk.injEq] at hfull
+          obtain ⟨hb, he⟩ := hfull
+          subst he
+          have hr2 : r.take r'.length = r' := by rw [hrr]; simp
+          have := ih st' c' r (hR st bs a st' r h0 hr) r'.length (by omega) as hrec
+          rw [hr2, hcc] at this
+          rw [← hb]
+          have hle : c' ≤ c + n := by omega
+          simp [this, hle]
+      · rw [hr] at h2; cases h2
+
+/-! ### file level: the block reader of the schema model on a truncated block array
+
+  `items` are ANY well-formed encodings of blocks (the exporter's or equivalent re-encodings), `vals` the
+  block values they denote; the body of the block array is `items` followed by the stop code. -/
+
+open CdnsVerif.Model.Decoder CdnsVerif.Model.Schema CdnsVerif.Model.Structs CdnsVerif.Model.File
+
+/-- each block value with the offset at which its encoding ends -/
+def ends : Nat → List Item → List Val → List (Val × Nat)
+  | c, i :: is, v :: vs => (v, c + i.enc.length) :: ends (c + i.enc.length) is vs
+  | _, _, _ => []
+
+/-- the encodings `items` denote the block values `vals` -/
+def Denotes : List Item → List Val → Prop
+  | [], [] => True
+  | i :: is, v :: vs => i.WF ∧ denote block i = some v ∧ Denotes is vs
+  | _, _ => False
+
+theorem ends_ge (c : Nat) (items : List Item) (vals : List Val) : ∀ x ∈ ends c items vals, c ≤ x.2 := by
+  induction items generalizing c vals with
+  | nil => intro x hx; simp [ends] at hx
+  | cons i is ih =>
+    cases vals with
+    | nil => intro x hx; simp [ends] at hx
+    | cons v vs =>
+      intro x hx
+      simp only [ends, List.mem_cons] at hx
+      rcases hx with rfl | hx
+      · simp
+      · have := ih _ vs x hx; omega
+
+/-- one step of the block reader in front of a block -/
+theorem readBlock_block (fuel : Nat) (st : RdSt) (hst : st.indef = true) (i : Item) (v : Val) (hwf : i.WF)
+    (hd : denote block i = some v) (hf : steps i + cfuel i ≤ fuel) (rest : Bytes) :
+    (readBlock fuel st).run (i.enc ++ rest) = .ok ((some v, { st with read := st.read + 1 }), rest) := by
+  unfold readBlock
+  simp only [hst, if_true]
+  apply run_peek_item i hwf
+  intro t ht
+  simp only [ht, if_false]
+  rw [Prog.run_bind_ok _ _ _ _ _ ((rd_all fuel).1 block i v rest hwf hd hf)]
+  rfl
+
+/-- a strict prefix of a block makes the reader fail with end-of-input – never with a value -/
+theorem readBlock_cut (fuel : Nat) (st : RdSt) (hst : st.indef = true) (i : Item) (v : Val) (hwf : i.WF)
+    (hd : denote block i = some v) (hf : steps i + cfuel i ≤ fuel) (n : Nat) (hn : n < i.enc.length) :
+    (readBlock fuel st).run (i.enc.take n) = .error .end_ := by
+  have hfull := readBlock_block fuel st hst i v hwf hd hf []
+  rw [List.append_nil] at hfull
+  rcases run_prefix (readBlock fuel st) i.enc n with h | ⟨a, r, _, h2⟩ | ⟨e, _, h2⟩
+  · exact h
+  · rw [hfull] at h2
+    simp only [Except.ok.injEq, Prod.mk.injEq] at h2
+    have := congrArg List.length h2.2
+    simp only [List.length_nil, List.length_append, List.length_drop] at this
+    omega
+  · rw [hfull] at h2; cases h2
+
+/-- **Truncated file.**  Reading the first `n` bytes of a block array returns EXACTLY the blocks that lie wholly
+    inside those `n` bytes – identical to the blocks of the whole file, in order – and then fails with
+    end-of-input (or reports the normal end when nothing was cut off). -/
+theorem truncated_blocks (fuel : Nat) (items : List Item) (vals : List Val) (hden : Denotes items vals)
+    (hf : ∀ i ∈ items, steps i + cfuel i ≤ fuel) (N : Nat) (hN : items.length < N) (st : RdSt) (hst : st.indef = true)
+    (c n : Nat) (hn : n ≤ (Item.encList items ++ [breakByte]).length) :
+    readAll (readBlock fuel) N st c ((Item.encList items ++ [breakByte]).take n) =
+      ((ends c items vals).filter (fun x => decide (x.2 ≤ c + n)),
+       if n = (Item.encList items ++ [breakByte]).length then none else some .end_) := by
+  induction items generalizing vals N st c n with
+  | nil =>
+    cases vals with
+    | cons _ _ => simp [Denotes] at hden
+    | nil =>
+      obtain ⟨N', rfl⟩ : ∃ N', N = N' + 1 := ⟨N - 1, by simp at hN; omega⟩
+      simp only [Item.encList, List.nil_append, List.length_singleton] at hn ⊢
+      simp only [ends, List.filter_nil]
+      have : n = 0 ∨ n = 1 := by omega
+      rcases this with rfl | rfl
+      · simp [readAll, readBlock, hst, peekType, Prog.run_bind]
+      · have hb : (readBlock fuel st).run [breakByte] = .ok ((none, { st with indef := false, count := st.read }), []) := by
+          unfold readBlock
+          simp only [hst, if_true]
+          rw [peek_break]
+          simp only [if_true]
+          rw [Prog.run_bind_ok _ _ _ _ _ (readBreak_accepts [])]
+          rfl
+        simp [readAll, hb]
+  | cons i is ih =>
+    cases vals with
+    | nil => simp [Denotes] at hden
+    | cons v vs =>
+      obtain ⟨hwf, hd, hrest⟩ := hden
+      obtain ⟨N', rfl⟩ : ∃ N', N = N' + 1 := ⟨N - 1, by simp at hN; omega⟩
+      have hfi := hf i (by simp)
+      simp only [Item.encList, List.append_assoc] at hn ⊢
+      by_cases hcut : n < i.enc.length
+      · -- the cut lies inside the first block
+        have htake : (i.enc ++ (Item.encList is ++ [breakByte])).take n = i.enc.take n := by
+          rw [List.take_append_of_le_length (by omega)]
+        rw [htake]
+        unfold readAll
+        rw [readBlock_cut fuel st hst i v hwf hd hfi n hcut]
+        have hne : n ≠ (i.enc ++ (Item.encList is ++ [breakByte])).length := by simp only [List.length_append]; omega
+        simp only [hne, if_false, Prod.mk.injEq, and_true]
+        symm
+        rw [List.filter_eq_nil_iff]
+        intro y hy
+        simp only [ends, List.mem_cons] at hy
+        simp only [decide_eq_true_eq, Nat.not_le]
+        rcases hy with rfl | hy
+        · simp; omega
+        · have := ends_ge _ is vs y hy; omega
+      · -- the first block is wholly inside
+        have hge : i.enc.length ≤ n := by omega
+        have htake : (i.enc ++ (Item.encList is ++ [breakByte])).take n =
+            i.enc ++ (Item.encList is ++ [breakByte]).take (n - i.enc.length) := by
+          rw [List.take_append, List.take_of_length_le hge]
+        rw [htake]
+        unfold readAll
+        rw [readBlock_block fuel st hst i v hwf hd hfi _]
+        simp only
+        have hc : c + ((i.enc ++ List.take (n - i.enc.length) (Item.encList is ++ [breakByte])).length -
+            (List.take (n - i.enc.length) (Item.encList is ++ [breakByte])).length) = c + i.enc.length := by
+          simp only [List.length_append]; omega
+        rw [hc]
+        have hn' : n - i.enc.length ≤ (Item.encList is ++ [breakByte]).length := by
+          simp only [List.length_append] at hn ⊢; omega
+        rw [ih vs hrest (fun j hj => hf j (by simp [hj])) N' (by simp at hN; omega) { st with read := st.read + 1 } hst (c + i.enc.length) (n - i.enc.length) hn']
+        have e1 : c + i.enc.length + (n - i.enc.length) = c + n := by omega
+        have e2 : (n - i.enc.length = (Item.encList is ++ [breakByte]).length) = (n = (i.enc ++ (Item.encList is ++ [breakByte])).length) := by
+          simp only [List.length_append, eq_iff_iff]; omega
+        simp only [ends, e1, e2]
+        have hin : decide (c + i.enc.length ≤ c + n) = true := by simp; omega
+        simp [List.filter_cons, hge]
+
+theorem denotes_toItems (blocks : List Val) (hb : ConformsList block blocks) : Denotes (toItems block blocks) blocks := by
+  induction blocks with
+  | nil => simp [toItems, Denotes]
+  | cons v vs ih =>
+    simp only [ConformsList] at hb
+    simp only [toItems, Denotes]
+    exact ⟨(wfs_all (need v)).1 block v (Nat.le_refl _) hb.1, denote_toItem block v hb.1, ih hb.2⟩
+
+/-- the exporter's own outputs: the block array `blocks… ff` written by the struct writers, cut anywhere -/
+theorem truncated_output (blocks : List Val) (hb : ConformsList block blocks) (fuel : Nat)
+    (hf : ∀ i ∈ toItems block blocks, steps i + cfuel i ≤ fuel) (c n : Nat)
+    (hn : n ≤ ((blocks.map (writeBytes block)).flatten ++ [breakByte]).length) :
+    readAll (readBlock fuel) (blocks.length + 1) ⟨true, 0, 0⟩ c (((blocks.map (writeBytes block)).flatten ++ [breakByte]).take n) =
+      ((ends c (toItems block blocks) blocks).filter (fun x => decide (x.2 ≤ c + n)),
+       if n = ((blocks.map (writeBytes block)).flatten ++ [breakByte]).length then none else some .end_) := by
+  have e : ∀ bl : List Val, (bl.map (writeBytes block)).flatten = Item.encList (toItems block bl) := by
+    intro bl
+    induction bl with
+    | nil => rfl
+    | cons v vs ih => simp only [List.map_cons, List.flatten_cons, toItems, Item.encList, writeBytes, ih]
+  rw [e blocks] at hn ⊢
+  exact truncated_blocks fuel (toItems block blocks) blocks (denotes_toItems blocks hb) hf (blocks.length + 1)
+    (by rw [toItems_length]; omega) ⟨true, 0, 0⟩ rfl c n hn
 
 /-! Non-vacuity / concrete instances: exactly one full window, then the end. -/
 example : Inv (DecSt.ofBytes (List.replicate 65535 1)) := inv_ofBytes _
